@@ -923,7 +923,9 @@ class World:
                 raise self.viol("C14.11 replace-result-not-registered", "C14.11", "the node returned by replace() is not registered under its id")
             if ASTNode.get_any(o.id) is o:
                 raise self.viol("C14.12 replace-original-still-registered", "C14.12", "replace() left the original registered")
-            if op.get("probe_fresh") and was_reg:
+            if op.get("probe_fresh") and was_reg and cname(new) != "Hook":
+                # (not for Hook: its constructor registers helper nodes of its own, so two constructions never meet the
+                # same registry)
                 # differential form of "the id a fresh construction with the original absent would get": take the
                 # result out of the registry again and really construct the same node afresh over the same children
                 nid = new.id
